@@ -17,24 +17,30 @@
 EXTENDS Integers, Sequences, FiniteSets, TLC, Json
 
 CONSTANTS Sizes,      \* byte sizes of mallocs / wraps
-          Cell,       \* pool alignment = bytes of one reservation
-          MaxCells,   \* pool sizes 0..MaxCells cells
+          ResSizes,   \* byte sizes of pool reservations (not multiples of the alignments)
+          Aligns,     \* pool alignments setAlignment() may choose (a new pool has 128)
+          ResizeTo,   \* byte arguments of pool.resize()
+          MaxLiveRes, \* live reservations per pool
+          MaxPoolBytes, \* pools are not grown beyond this (bounds the model)
           MaxBufs,    \* buffers created in one history
           MaxPools,   \* pools created in one history
-          MaxHist,
+          MaxHist,    \* calls after the prefix (behaviour generation)
+          Prefixes,   \* sequence of fixed call prefixes (<<>> = none); one is chosen at Init
           HostPtrImpl \* "counted": a use_host_pointer allocation is un-counted when released (intended)
                       \* "leaky":   it is treated like wrapped memory on release (the code before the repair)
 
 VARIABLES bufs,    \* sequence of buffers [bytes, kind, views, wrapped]  (views = 0: released)
-          pools,   \* sequence of pools   [alive, cells, res (live reservations: set of ids), nres (ids handed out),
-                   \*                      al (alignment: Cell or Cell/2)]
+          pools,   \* sequence of pools   [alive, size (bytes of the backing buffer), al (alignment),
+                   \*                      res (live reservations: set of [id, off, len]), nres (ids handed out)]
           bytes,   \* modeDevice_t::bytesAllocated
           maxb,    \* modeDevice_t::maxBytesAllocated
           taken,   \* ghost: every value `bytes` has had
           hist,
-          done     \* generation only: the finished history has been printed
+          done,    \* generation only: the finished history has been printed
+          pf       \* generation only: which prefix this history starts with
 
-vars == <<bufs, pools, bytes, maxb, taken, hist, done>>
+vars == <<bufs, pools, bytes, maxb, taken, hist, done, pf>>
+Pre == Prefixes[pf]
 
 Max(a, b) == IF a >= b THEN a ELSE b
 SetMax(S) == CHOOSE x \in S : \A y \in S : y <= x
@@ -47,7 +53,7 @@ LivePools == {p \in DOMAIN pools : pools[p].alive}
 \* wrapped memory counts nothing
 Intended ==
   SumSeq([b \in DOMAIN bufs |-> IF bufs[b].views > 0 /\ bufs[b].kind # "wrap" THEN bufs[b].bytes ELSE 0], Len(bufs))
-  + SumSeq([p \in DOMAIN pools |-> IF pools[p].alive THEN pools[p].cells * Cell ELSE 0], Len(pools))
+  + SumSeq([p \in DOMAIN pools |-> IF pools[p].alive THEN pools[p].size ELSE 0], Len(pools))
 
 \* counter sub-steps: a sequence of signed deltas applied one after the other; the maximum is taken
 \* after every increment (as the code does), the ghost records every intermediate value
@@ -57,12 +63,16 @@ Apply(st, ds) ==
   ELSE LET v == st.b + ds[1]
        IN Apply([b |-> v, m |-> IF ds[1] > 0 THEN Max(st.m, v) ELSE st.m, t |-> st.t \cup {v}], Tail(ds))
 
-Obs(b, m) == [mem |-> b, max |-> m]
+\* observation: the two counters and the size() of every live pool (in pool order)
+LiveSizes(ps) == LET RECURSIVE G(_)
+                     G(j) == IF j > Len(ps) THEN <<>> ELSE (IF ps[j].alive THEN <<ps[j].size>> ELSE <<>>) \o G(j + 1)
+                 IN G(1)
+Obs(b, m) == [mem |-> b, max |-> m, psz |-> LiveSizes(pools')]
 Commit(rec, ds) ==
   LET st == Apply([b |-> bytes, m |-> maxb, t |-> taken], ds) IN
   /\ bytes' = st.b /\ maxb' = st.m /\ taken' = st.t
   /\ hist' = IF MaxHist = 0 THEN hist ELSE Append(hist, rec @@ Obs(st.b, st.m))
-  /\ done' = done
+  /\ done' = done /\ pf' = pf
 Rec(a, x, n, use, own, src) == [a |-> a, x |-> x, n |-> n, use |-> use, own |-> own, src |-> src, err |-> FALSE]
 
 \* what a released buffer gives back
@@ -113,79 +123,123 @@ FreeView(b) ==
             IF bufs[b].views = 1 /\ Refund(b) > 0 THEN <<-Refund(b)>> ELSE <<>>)
 
 \* --- pools ------------------------------------------------------------------
+(* Byte-exact model of a pool that is used through reserve() only (no slices of reservations).
+   The backing size after a resize / setAlignment depends on where the reservations sit, so the placement of
+   modeMemoryPool_t is followed:  TRANSCRIBED FROM src/occa/internal/core/memoryPool.cpp (reserve, resize,
+   reallocate, migrate, computeReserved, setAlignment).  It is not the oracle of this property -- Conservation and
+   HighWater are -- but it makes the predicted pool sizes depend on the alignment (reserved extent under the old
+   versus the new alignment), which a cell-sized model cannot.  The replayer also reports size() of every pool, so a
+   changed placement policy shows up under its own signature (pool-size:...) and not as an accounting error.      *)
+DefaultAlign == 128
+RoundUp(x, a)   == ((x + a - 1) \div a) * a
+RoundDown(x, a) == (x \div a) * a
+CellsOf(r, a)   == (RoundDown(r.off, a) \div a) .. ((RoundUp(r.off + r.len, a) \div a) - 1)
+Occupied(res, a) == UNION {CellsOf(r, a) : r \in res}
+\* size of the union of the reserved ranges, each rounded out to a        (computeReserved)
+Reserved(res, a) == a * Cardinality(Occupied(res, a))
+\* packing: every block of touching rounded ranges moves down over the free a-cells below it   (migrate)
+Migrate(res, a) ==
+  LET occ == Occupied(res, a) IN
+  {[r EXCEPT !.off = r.off - a * Cardinality({k \in 0..((RoundDown(r.off, a) \div a) - 1) : k \notin occ})] : r \in res}
+\* first unreserved region that fits, scanning the reservations by offset   (reserve)
+Hole(res, a, n) ==
+  LET RECURSIVE Go(_, _)
+      Go(S, off) == IF S = {} THEN off
+                    ELSE LET m == CHOOSE m \in S : \A x \in S : m.off <= x.off IN
+                         IF m.off >= off + n THEN off ELSE Go(S \ {m}, Max(off, RoundUp(m.off + m.len, a)))
+  IN Go(res, 0)
+
+\* counter sub-steps of reallocate(): old buffer first when nothing is reserved, new buffer first otherwise
+Realloc(res, old, new) ==
+  IF res = {} THEN (IF old > 0 THEN <<-old>> ELSE <<>>) \o (IF new > 0 THEN <<new>> ELSE <<>>)
+  ELSE (IF new > 0 THEN <<new>> ELSE <<>>) \o (IF old > 0 THEN <<-old>> ELSE <<>>)
+\* reallocate(n): [pool, deltas]
+Reallocated(pl, n) ==
+  LET new == RoundUp(n, pl.al) IN
+  [pool |-> [pl EXCEPT !.size = new, !.res = Migrate(pl.res, pl.al)], ds |-> Realloc(pl.res, pl.size, new)]
+
 CreatePool ==
   /\ Len(pools) < MaxPools
-  /\ pools' = Append(pools, [alive |-> TRUE, cells |-> 0, res |-> {}, nres |-> 0, al |-> Cell])
+  /\ pools' = Append(pools, [alive |-> TRUE, size |-> 0, al |-> DefaultAlign, res |-> {}, nres |-> 0])
   /\ UNCHANGED bufs
   /\ Commit(Rec("newPool", Len(pools) + 1, 0, FALSE, FALSE, FALSE), <<>>)
 
-\* modeMemoryPool_t::resize to n cells (n # current size)
-ResizeDeltas(p, n) ==
-  LET old == pools[p].cells * Cell
-      new == n * Cell
-  IN IF pools[p].res = {} THEN (IF old > 0 THEN <<-old>> ELSE <<>>) \o (IF new > 0 THEN <<new>> ELSE <<>>)
-     ELSE (IF new > 0 THEN <<new>> ELSE <<>>) \o (IF old > 0 THEN <<-old>> ELSE <<>>)
-
-\* r = pool.reserve(one cell): grows the pool to reserved+1 cells when it does not fit
-Reserve(p) ==
-  /\ p \in LivePools
-  /\ LET r    == Cardinality(pools[p].res)
-         grow == r + 1 > pools[p].cells
-     IN /\ r + 1 <= MaxCells
-        /\ pools' = [pools EXCEPT ![p].res = @ \cup {pools[p].nres + 1}, ![p].nres = @ + 1,
-                                  ![p].cells = IF grow THEN r + 1 ELSE @]
+\* r = pool.reserve(n bytes)
+Reserve(p, n) ==
+  /\ p \in LivePools /\ Cardinality(pools[p].res) < MaxLiveRes
+  /\ LET pl   == pools[p]
+         a    == pl.al
+         rsv  == Reserved(pl.res, a)
+         id   == pl.nres + 1
+         h    == Hole(pl.res, a, n)
+         grow == (rsv + n > pl.size) \/ (pl.res # {} /\ h + n > pl.size)
+         g    == Reallocated(pl, rsv + RoundUp(n, a))
+         pl2  == IF grow THEN g.pool ELSE pl
+         off  == IF grow THEN rsv ELSE IF pl.res = {} THEN 0 ELSE h
+     IN /\ pl2.size <= MaxPoolBytes
+        /\ pools' = [pools EXCEPT ![p] = [pl2 EXCEPT !.res = @ \cup {[id |-> id, off |-> off, len |-> n]}, !.nres = id]]
         /\ UNCHANGED bufs
-        /\ Commit(Rec("reserve", p, pools[p].nres + 1, FALSE, FALSE, FALSE),
-                  IF grow THEN ResizeDeltas(p, r + 1) ELSE <<>>)
+        /\ Commit(Rec("reserve", p, n, FALSE, FALSE, FALSE), IF grow THEN g.ds ELSE <<>>)
 
+\* free() of reservation number r of pool p
 Release(p, r) ==
-  /\ p \in LivePools /\ r \in pools[p].res
-  /\ pools' = [pools EXCEPT ![p].res = @ \ {r}]
+  /\ p \in LivePools /\ \E x \in pools[p].res : x.id = r
+  /\ pools' = [pools EXCEPT ![p].res = {x \in @ : x.id # r}]
   /\ UNCHANGED bufs
   /\ Commit(Rec("release", p, r, FALSE, FALSE, FALSE), <<>>)
 
-\* pool.resize(n cells): an error below the reserved size, nothing when the size is unchanged
+\* pool.resize(n bytes): an error below the reserved size, nothing when n is the current size, else reallocate
+ResizeEff(p, n, name) ==
+  LET pl == pools[p] IN
+  IF n < Reserved(pl.res, pl.al)
+  THEN /\ UNCHANGED pools
+       /\ Commit([Rec(name, p, n, FALSE, FALSE, FALSE) EXCEPT !.err = TRUE], <<>>)
+  ELSE IF n = pl.size
+  THEN /\ UNCHANGED pools
+       /\ Commit(Rec(name, p, n, FALSE, FALSE, FALSE), <<>>)
+  ELSE LET g == Reallocated(pl, n) IN
+       /\ pools' = [pools EXCEPT ![p] = g.pool]
+       /\ Commit(Rec(name, p, n, FALSE, FALSE, FALSE), g.ds)
 Resize(p, n) ==
-  /\ p \in LivePools /\ n \in 0..MaxCells
+  /\ p \in LivePools /\ n \in ResizeTo
   /\ UNCHANGED bufs
-  /\ IF n < Cardinality(pools[p].res)
-     THEN /\ UNCHANGED pools
-          /\ Commit([Rec("resize", p, n, FALSE, FALSE, FALSE) EXCEPT !.err = TRUE], <<>>)
-     ELSE /\ pools' = [pools EXCEPT ![p].cells = n]
-          /\ Commit(Rec("resize", p, n, FALSE, FALSE, FALSE),
-                    IF n = pools[p].cells THEN <<>> ELSE ResizeDeltas(p, n))
-
+  /\ ResizeEff(p, n, "resize")
+\* pool.shrinkToFit() = resize(reserved())
 ShrinkToFit(p) ==
   /\ p \in LivePools
   /\ UNCHANGED bufs
-  /\ LET n == Cardinality(pools[p].res) IN
-     /\ pools' = [pools EXCEPT ![p].cells = n]
-     /\ Commit(Rec("shrink", p, n, FALSE, FALSE, FALSE),
-               IF n = pools[p].cells THEN <<>> ELSE ResizeDeltas(p, n))
+  /\ ResizeEff(p, Reserved(pools[p].res, pools[p].al), "shrink")
 
-\* pool.setAlignment(a), a toggling between Cell and Cell/2 (every reservation stays one Cell, so placement still does
-\* not matter): with live reservations the pool is re-made with exactly the reserved size -- always, also when
-\* that is its current size -- new buffer first; an empty pool only notes the alignment
-SetAlignment(p) ==
-  /\ p \in LivePools
+\* pool.setAlignment(a): with live reservations the pool is re-made (new buffer first) with exactly the extent the
+\* reservations need under the NEW alignment; an empty pool notes the alignment and keeps its size a multiple of it
+SetAlignment(p, a) ==
+  /\ p \in LivePools /\ a \in Aligns
   /\ UNCHANGED bufs
-  /\ LET n  == Cardinality(pools[p].res)
-         a2 == IF pools[p].al = Cell THEN Cell \div 2 ELSE Cell
-     IN /\ pools' = [pools EXCEPT ![p].al = a2, ![p].cells = IF n > 0 THEN n ELSE @]
-        /\ Commit(Rec("align", p, a2, FALSE, FALSE, FALSE),
-                  IF n > 0 THEN <<n * Cell>> \o (IF pools[p].cells > 0 THEN <<-(pools[p].cells * Cell)>> ELSE <<>>) ELSE <<>>)
+  /\ LET pl == pools[p] IN
+     IF a = pl.al
+     THEN /\ UNCHANGED pools
+          /\ Commit(Rec("align", p, a, FALSE, FALSE, FALSE), <<>>)
+     ELSE IF pl.res # {}
+     THEN LET new == Reserved(pl.res, a) IN
+          /\ pools' = [pools EXCEPT ![p] = [pl EXCEPT !.al = a, !.size = new, !.res = Migrate(pl.res, a)]]
+          /\ Commit(Rec("align", p, a, FALSE, FALSE, FALSE), <<new>> \o (IF pl.size > 0 THEN <<-pl.size>> ELSE <<>>))
+     ELSE LET new == RoundUp(pl.size, a) IN
+          /\ pools' = [pools EXCEPT ![p] = [pl EXCEPT !.al = a, !.size = new]]
+          /\ Commit(Rec("align", p, a, FALSE, FALSE, FALSE),
+                    IF pl.size % a # 0 THEN <<-pl.size, new>> ELSE <<>>)
 
 \* pool.free(): the reservations die with it, the backing buffer is released
 FreePool(p) ==
   /\ p \in LivePools
-  /\ pools' = [pools EXCEPT ![p].alive = FALSE, ![p].res = {}]
+  /\ pools' = [pools EXCEPT ![p].alive = FALSE, ![p].res = {}, ![p].size = 0]
   /\ UNCHANGED bufs
   /\ Commit(Rec("freePool", p, 0, FALSE, FALSE, FALSE),
-            IF pools[p].cells > 0 THEN <<-(pools[p].cells * Cell)>> ELSE <<>>)
+            IF pools[p].size > 0 THEN <<-pools[p].size>> ELSE <<>>)
 
 Init == /\ bufs = <<>> /\ pools = <<>> /\ bytes = 0 /\ maxb = 0 /\ taken = {0} /\ hist = <<>> /\ done = FALSE
+        /\ pf \in DOMAIN Prefixes
 
-Busy == MaxHist = 0 \/ Len(hist) < MaxHist
+Busy == MaxHist = 0 \/ Len(hist) < Len(Pre) + MaxHist
 DoMalloc      == Busy /\ \E n \in Sizes, use, own, src \in BOOLEAN : Malloc(n, use, own, src)
 DoMallocZero  == Busy /\ MallocZero
 DoWrap        == Busy /\ \E n \in Sizes : Wrap(n)
@@ -193,21 +247,24 @@ DoClone       == Busy /\ \E b \in DOMAIN bufs : Clone(b)
 DoSlice       == Busy /\ \E b \in DOMAIN bufs : Slice(b)
 DoFreeView    == Busy /\ \E b \in DOMAIN bufs : FreeView(b)
 DoCreatePool  == Busy /\ CreatePool
-DoReserve     == Busy /\ \E p \in DOMAIN pools : Reserve(p)
-DoRelease     == Busy /\ \E p \in DOMAIN pools : \E r \in pools[p].res : Release(p, r)
-DoResize      == Busy /\ \E p \in DOMAIN pools : \E n \in 0..MaxCells : Resize(p, n)
+DoReserve     == Busy /\ \E p \in DOMAIN pools : \E n \in ResSizes : Reserve(p, n)
+DoRelease     == Busy /\ \E p \in DOMAIN pools : \E r \in pools[p].res : Release(p, r.id)
+DoResize      == Busy /\ \E p \in DOMAIN pools : \E n \in ResizeTo : Resize(p, n)
 DoShrinkToFit == Busy /\ \E p \in DOMAIN pools : ShrinkToFit(p)
-DoSetAlignment == Busy /\ \E p \in DOMAIN pools : SetAlignment(p)
+DoSetAlignment == Busy /\ \E p \in DOMAIN pools : \E a \in Aligns : SetAlignment(p, a)
 DoFreePool    == Busy /\ \E p \in DOMAIN pools : FreePool(p)
 
 Call == \/ DoMalloc \/ DoMallocZero \/ DoWrap \/ DoClone \/ DoSlice \/ DoFreeView
         \/ DoCreatePool \/ DoReserve \/ DoRelease \/ DoResize \/ DoShrinkToFit \/ DoSetAlignment \/ DoFreePool
 
-\* generation (MaxHist > 0): a history of MaxHist calls is printed once by a last step
-Finish == /\ MaxHist > 0 /\ Len(hist) = MaxHist /\ ~done
+\* generation (MaxHist > 0): the history starts with the chosen prefix (state constraint PrefixOK); after MaxHist
+\* further calls it is printed once by a last step
+PrefixOK == \A j \in 1..Len(hist) : j <= Len(Pre) =>
+              hist[j].a = Pre[j].a /\ hist[j].x = Pre[j].x /\ hist[j].n = Pre[j].n
+Finish == /\ MaxHist > 0 /\ Len(hist) = Len(Pre) + MaxHist /\ ~done
           /\ PrintT(<<"B", ToJson(hist)>>)
           /\ done' = TRUE
-          /\ UNCHANGED <<bufs, pools, bytes, maxb, taken, hist>>
+          /\ UNCHANGED <<bufs, pools, bytes, maxb, taken, hist, pf>>
 
 Next == Call \/ Finish
 
@@ -222,10 +279,16 @@ Conservation == bytes = Intended
 HighWater == maxb = SetMax(taken)
 \* everything released => 0
 AllReleased == (LiveBufs = {} /\ LivePools = {}) => bytes = 0
+\* sanity of the transcribed placement: reservations are disjoint, inside the pool, and the pool holds the reserved extent
+PoolSane == \A p \in LivePools :
+  LET pl == pools[p] IN
+  /\ \A x, y \in pl.res : x.id # y.id => (x.off + x.len <= y.off \/ y.off + y.len <= x.off)
+  /\ \A x \in pl.res : x.off + x.len <= pl.size
+  /\ Reserved(pl.res, pl.al) <= pl.size /\ pl.size % pl.al = 0
 
 \* design run: released buffers and dead pools keep only their slot in the numbering
 View == <<[b \in DOMAIN bufs |-> IF bufs[b].views > 0 THEN bufs[b] ELSE <<>>],
-         [p \in DOMAIN pools |-> IF pools[p].alive THEN [c |-> pools[p].cells, r |-> Cardinality(pools[p].res), a |-> pools[p].al] ELSE <<>>],
-         bytes, maxb, SetMax(taken)>>
+         [p \in DOMAIN pools |-> IF pools[p].alive THEN [s |-> pools[p].size, a |-> pools[p].al, r |-> {<<x.off, x.len>> : x \in pools[p].res}] ELSE <<>>],
+         bytes, maxb, SetMax(taken), pf>>
 
 =============================================================================
